@@ -23,31 +23,44 @@ type seg struct {
 }
 
 type frag struct {
-	Key string          `json:"key,omitempty"`
-	Sub string          `json:"sub,omitempty"`
-	F  string           `json:"f"`
-	Ty string           `json:"ty,omitempty"`
-	V  string           `json:"v,omitempty"`
-	M  map[string]*frag `json:"m,omitempty"`
-	L  []*frag          `json:"l,omitempty"`
-	H  int              `json:"h,omitempty"`
+	Key string           `json:"key,omitempty"`
+	Sub string           `json:"sub,omitempty"`
+	F   string           `json:"f"`
+	Ty  string           `json:"ty,omitempty"`
+	V   string           `json:"v,omitempty"`
+	M   map[string]*frag `json:"m,omitempty"`
+	L   []*frag          `json:"l,omitempty"`
+	H   int              `json:"h,omitempty"`
+	K1  string           `json:"k1,omitempty"`
+	K2  string           `json:"k2,omitempty"`
+	Val *frag            `json:"val,omitempty"`
 }
 
 func (f *frag) UnmarshalJSON(b []byte) error {
 	var raw struct {
-		F  string            `json:"f"`
-		Ty string            `json:"ty"`
-		V  string            `json:"v"`
-		M  json.RawMessage   `json:"m"`
-		L  []json.RawMessage `json:"l"`
-		H  int               `json:"h"`
-		Key string           `json:"key"`
-		Sub string           `json:"sub"`
+		F   string            `json:"f"`
+		Ty  string            `json:"ty"`
+		V   string            `json:"v"`
+		M   json.RawMessage   `json:"m"`
+		L   []json.RawMessage `json:"l"`
+		H   int               `json:"h"`
+		Key string            `json:"key"`
+		Sub string            `json:"sub"`
+		K1  string            `json:"k1"`
+		K2  string            `json:"k2"`
+		Val json.RawMessage   `json:"val"`
 	}
 	if err := json.Unmarshal(b, &raw); err != nil {
 		return err
 	}
 	f.F, f.Ty, f.V, f.H, f.Key, f.Sub = raw.F, raw.Ty, raw.V, raw.H, raw.Key, raw.Sub
+	f.K1, f.K2 = raw.K1, raw.K2
+	if len(raw.Val) > 0 && raw.Val[0] == '{' {
+		f.Val = &frag{}
+		if err := json.Unmarshal(raw.Val, f.Val); err != nil {
+			return err
+		}
+	}
 	if len(raw.M) > 0 && raw.M[0] == '{' {
 		if err := json.Unmarshal(raw.M, &f.M); err != nil {
 			return err
@@ -114,6 +127,8 @@ func (f *frag) build(hs []*ucfg.Config) interface{} {
 		st.Field(0).Set(reflect.ValueOf(hs[f.H-1]))
 		st.Field(1).SetString(f.V)
 		return st.Interface()
+	case "dk":
+		return map[string]interface{}{f.K1 + "." + f.K2: f.Val.build(hs)}
 	case "m":
 		m := map[string]interface{}{}
 		for k, v := range f.M {
@@ -389,15 +404,15 @@ func projectStore(hs []*ucfg.Config, addrs map[string]addr, comps map[string]boo
 
 // expected projection as emitted by the spec
 type expHandle struct {
-	Obs    topObs                     `json:"obs"`
-	Path   string                     `json:"path"`
-	IsRoot bool                       `json:"isroot"`
-	IsDict bool                       `json:"isdict"`
-	IsArr  bool                       `json:"isarr"`
-	Flat   []string                   `json:"flat"`
-	At     [][][]string               `json:"at"`
-	Sweep  json.RawMessage            `json:"sweep"`
-	Count  json.RawMessage            `json:"count"`
+	Obs    topObs          `json:"obs"`
+	Path   string          `json:"path"`
+	IsRoot bool            `json:"isroot"`
+	IsDict bool            `json:"isdict"`
+	IsArr  bool            `json:"isarr"`
+	Flat   []string        `json:"flat"`
+	At     [][][]string    `json:"at"`
+	Sweep  json.RawMessage `json:"sweep"`
+	Count  json.RawMessage `json:"count"`
 }
 
 type expState struct {
@@ -626,6 +641,10 @@ var storeDriveNames = [][]seg{
 }
 
 func randFrag(rng *rand.Rand, depth int, nh int, embed bool) *frag {
+	if depth >= 2 && rng.Intn(10) == 0 {
+		// a single dotted key (never next to other keys: overlapping spellings in one input are KF-13's business)
+		return &frag{F: "dk", K1: []string{"a", "p"}[rng.Intn(2)], K2: []string{"x", "t"}[rng.Intn(2)], Val: randFrag(rng, depth-1, nh, embed)}
+	}
 	switch k := rng.Intn(10); {
 	case depth == 0 || k < 3:
 		if rng.Intn(5) == 0 {
@@ -662,6 +681,7 @@ func fragEmbeds(f *frag, out map[int]bool) {
 	for _, c := range f.L {
 		fragEmbeds(c, out)
 	}
+	fragEmbeds(f.Val, out)
 }
 
 func reach(c *ucfg.Config, depth int, out map[*ucfg.Config]bool) {
